@@ -532,6 +532,23 @@ def fpzip_decompress(fpzip_bytes, shape, bits):
 
     return floats
 
+def _fpzip_encoded(method, values, **keywords):
+    """The tuple (method, shape, bits, fpzip bytes) for an array of floats, or
+    else ('literal', array) if fpzip is unable to compress it.
+
+    fpzip.compress fails with "memory buffer overflow" on arrays that do not
+    compress, such as values whose magnitudes are spread over the full range of
+    exponents; such arrays are stored as they are, which is lossless.
+    """
+
+    try:
+        (fpzip_bytes, bits) = fpzip_compress(values, **keywords)
+    except fpzip.FpzipWriteError:
+        array = np.require(values, dtype=np.float64, requirements=['C', 'A'])
+        return ('literal', array)
+
+    return (method, values.shape, bits, fpzip_bytes)
+
 ################################################################################
 # Support for compression using integers plus an offset and scale factor
 ################################################################################
@@ -548,8 +565,7 @@ def _encode_one_float_array(values, digits, reference):
 
     # Handle fpzip method first
     if reference == 'fpzip':
-        (fpzip_bytes, bits) = fpzip_compress(values, digits=digits)
-        return ('fpzip', values.shape, bits, fpzip_bytes)
+        return _fpzip_encoded('fpzip', values, digits=digits)
 
     # Prep the array
     shape = values.shape
@@ -592,16 +608,14 @@ def _encode_one_float_array(values, digits, reference):
 
     # In nbytes > 6, better to use double precision plus fpzip
     if nbytes > 6:
-        (fpzip_bytes, bits) = fpzip_compress(values)
-        return ('float64', shape, bits, fpzip_bytes)
+        return _fpzip_encoded('float64', values)
 
     # Sometimes the test reveals that single precision fpzip is best. This is
     # so when the absolute precision requested is no finer than the spacing of
     # single-precision values at the largest magnitude in the array.
     max_value = max(-minval, maxval)
     if nbytes == 4 and precision >= max_value * 10.**(-SINGLE_DIGITS):
-        (fpzip_bytes, bits) = fpzip_compress(values, dtype=np.float32)
-        return ('float32', shape, bits, fpzip_bytes)
+        return _fpzip_encoded('float32', values, dtype=np.float32)
 
     # Set the offset as the minimum; scale for an unsigned int
     scale_factor = (256. ** nbytes) / span
@@ -671,12 +685,10 @@ def _encode_floats(values, rank, digits, reference):
 
     # Handle "single" and "double"
     if digits == 'double':
-        (fpzip_bytes, bits) = fpzip_compress(values)
-        return ('float64', shape, bits, fpzip_bytes)
+        return _fpzip_encoded('float64', values)
 
     if digits == 'single':
-        (fpzip_bytes, bits) = fpzip_compress(values, dtype=np.float32)
-        return ('float32', shape, bits, fpzip_bytes)
+        return _fpzip_encoded('float32', values, dtype=np.float32)
 
     # Handle shapeless items
     if item == ():
